@@ -23,13 +23,14 @@ Inductive ty :=
 | TTimedelta | TTimezone
 | TEnum (e: string)
 | TLit (vs: list json)
-| TList (t: ty)                (* List, Sequence, Deque, Tuple[T, ...] *)
+| TList (keep: bool) (t: ty)   (* false: List, Sequence, Deque; true: Tuple[T, ...] (keeps a field's serialize override) *)
 | TSet (t: ty)                 (* Set, FrozenSet *)
 | TTuple (args: list (bool * ty))   (* (true, t) = Unpack[t] *)
 | TDict (k v: ty)              (* Dict, Mapping, OrderedDict, DefaultDict; Counter[K] = TDict K TInt *)
 | TUnion (ts: list ty)         (* Optional[t] = TUnion [t; TNone] *)
 | TData (c: string)
-| TTyped (c: string).
+| TTyped (c: string)
+| TNamed (c: string).          (* NamedTuple class: array, or object where named tuples are serialized as dicts *)
 
 Inductive value :=
 | VNone | VBool (b: bool) | VInt (z: Z) | VFlt (repr: string) | VStr (s: string)
@@ -49,10 +50,13 @@ Record field := mkF {
   f_ty : ty;
   f_has_default : bool;      (* dataclass: default or default_factory; TypedDict: key not required *)
   f_init : bool;
+  f_ntover : option bool;    (* field option serialize="as_dict" (Some true) / "as_list" (Some false) *)
 }.
-Record cls := mkC { c_id : string; c_name : string (* bare __name__ *); c_fields : list field }.
+Record cls := mkC { c_id : string; c_name : string (* bare __name__ *); c_fields : list field;
+                    c_ntd : bool     (* Config / Config.dialect namedtuple_as_dict *);
+                    c_omit : bool    (* Config / Config.dialect omit_none *) }.
 Record enumd := mkE { e_id : string; e_values : list json; e_flag : bool }.
-Record env := mkEnv { classes : list cls; typeds : list cls; enums : list enumd }.
+Record env := mkEnv { classes : list cls; typeds : list cls; nts : list cls; enums : list enumd }.
 
 Fixpoint find_cls (l: list cls) (id: string) : option cls :=
   match l with [] => None | c :: r => if String.eqb (c_id c) id then Some c else find_cls r id end.
@@ -97,6 +101,38 @@ Fixpoint find_unpack (args: list (bool * ty)) : option nat :=
   end.
 Definition no_unpack (args: list (bool * ty)) : bool := forallb (fun a => negb (fst a)) args.
 
+(* named tuples as dicts?  The class-wide option, overridden per field (model of the decision in
+   pack_named_tuple / on_named_tuple; the translated kernels are VerifGen.K6N) *)
+Definition nt_mode (class_opt: bool) (ov: option bool) : bool :=
+  match ov with Some b => b | None => class_opt end.
+
+(* the value to_dict tests with `is not None` under omit_none *)
+Definition is_none_val (v: value) : bool :=
+  match v with VNone => true | VRaw JNull => true | _ => false end.
+
+(* matching of a dataclass instance with the emitted members: every field in class order, under its
+   alias; with omit_none a nullable field whose value is None has no member (it must still conform) *)
+(* types the serializer treats as nullable (only for these is the `is not None` test emitted):
+   Any, None, and unions with a direct None member; Literal[None] is not *)
+Definition nullable (t: ty) : bool :=
+  match t with
+  | TAny | TNone => true
+  | TUnion ts => existsb (fun t' => match t' with TNone | TAny => true | _ => false end) ts
+  | _ => false end.
+
+Fixpoint obj_match (chk: field -> value -> json -> bool) (omit: field -> value -> bool)
+         (fields: list field) (fs: list (string * value)) (ms: list (string * json)) : bool :=
+  match fields, fs with
+  | [], [] => match ms with [] => true | _ => false end
+  | f :: rf, (nm, fv) :: rfs =>
+      String.eqb (f_name f) nm &&
+      (if omit f fv then chk f fv JNull && obj_match chk omit rf rfs ms
+       else match ms with
+            | (key, x) :: rms => String.eqb (f_key f) key && chk f fv x && obj_match chk omit rf rfs rms
+            | [] => false end)
+  | _, _ => false
+  end.
+
 (* key types whose basic form is a str (the JSON member name is that str) *)
 Fixpoint str_wired (fuel: nat) (E: env) (t: ty) : bool :=
   match fuel with
@@ -111,7 +147,9 @@ Fixpoint str_wired (fuel: nat) (E: env) (t: ty) : bool :=
     | _ => false end
   end.
 
-Fixpoint enc_ok (fuel: nat) (E: env) (t: ty) (v: value) (j: json) {struct fuel} : bool :=
+(* cur: named tuples are dicts at this position; base: the class-wide option of the owning dataclass
+   (the serializer forgets a field override inside list/set/mapping elements and falls back to it) *)
+Fixpoint enc_ok (fuel: nat) (E: env) (cur base: bool) (t: ty) (v: value) (j: json) {struct fuel} : bool :=
   match fuel with
   | O => false
   | Sn n =>
@@ -140,15 +178,17 @@ Fixpoint enc_ok (fuel: nat) (E: env) (t: ty) (v: value) (j: json) {struct fuel} 
             | _ => false end
         end
     | TLit vs => match v with VRaw x => existsb (json_eqb x) vs && json_eqb x j | _ => false end
-    | TList t' => match v, j with VList l, JArr js => all2 (enc_ok n E t') l js | _, _ => false end
+    | TList keep t' => match v, j with
+                       | VList l, JArr js => all2 (enc_ok n E (if keep then cur else base) base t') l js
+                       | _, _ => false end
     | TSet t' => match v, j with
-                 | VList l, JArr js => all2 (enc_ok n E t') l js && no_dup_json js   (* excludes KF set-wire-collision *)
+                 | VList l, JArr js => all2 (enc_ok n E base base t') l js && no_dup_json js   (* excludes KF set-wire-collision *)
                  | _, _ => false end
     | TTuple args =>
         match v, j with
         | VList l, JArr js =>
             match find_unpack args with
-            | None => all2 (fun a p => enc_ok n E (snd a) (fst p) (snd p)) args (combine l js)
+            | None => all2 (fun a p => enc_ok n E cur base (snd a) (fst p) (snd p)) args (combine l js)
                       && Nat.eqb (List.length l) (List.length js) && Nat.eqb (List.length l) (List.length args)
             | Some u =>
                 let before := firstn u args in
@@ -157,28 +197,25 @@ Fixpoint enc_ok (fuel: nat) (E: env) (t: ty) (v: value) (j: json) {struct fuel} 
                 let inner := match nth_error args u with Some (_, t') => t' | None => TNone end in
                 no_unpack after && Nat.eqb (List.length l) (List.length js) && Nat.leb (u + na)%nat (List.length l) &&
                 let nm := (List.length l - u - na)%nat in
-                all2 (fun a p => enc_ok n E (snd a) (fst p) (snd p)) before (combine (firstn u l) (firstn u js)) &&
-                enc_ok n E inner (VList (firstn nm (skipn u l))) (JArr (firstn nm (skipn u js))) &&
-                all2 (fun a p => enc_ok n E (snd a) (fst p) (snd p)) after (combine (skipn (u + nm)%nat l) (skipn (u + nm)%nat js))
+                all2 (fun a p => enc_ok n E cur base (snd a) (fst p) (snd p)) before (combine (firstn u l) (firstn u js)) &&
+                enc_ok n E cur base inner (VList (firstn nm (skipn u l))) (JArr (firstn nm (skipn u js))) &&
+                all2 (fun a p => enc_ok n E cur base (snd a) (fst p) (snd p)) after (combine (skipn (u + nm)%nat l) (skipn (u + nm)%nat js))
             end
         | _, _ => false end
     | TDict kt vt =>
         match v, j with
         | VDict kvs, JObj ms =>
             all2 (fun kv m => match kv, m with (kv', vv), (key, x) =>
-                    (enc_ok n E kt kv' (JStr key)
-                     || existsb (fun kj => enc_ok n E kt kv' kj && String.eqb key (key_str kj)) (key_cands E kv'))
-                    && enc_ok n E vt vv x end) kvs ms
+                    (enc_ok n E base base kt kv' (JStr key)
+                     || existsb (fun kj => enc_ok n E base base kt kv' kj && String.eqb key (key_str kj)) (key_cands E kv'))
+                    && enc_ok n E base base vt vv x end) kvs ms
         | _, _ => false end
-    | TUnion ts => existsb (fun t' => enc_ok n E t' v j) ts
+    | TUnion ts => existsb (fun t' => enc_ok n E cur base t' v j) ts
     | TData c =>
         match find_cls (classes E) c, v, j with
         | Some d, VObj fs, JObj ms =>
-            (* to_dict emits every field, in class order, under its alias *)
-            all2 (fun f p => match p with ((nm, fv), (key, x)) =>
-                    String.eqb (f_name f) nm && String.eqb (f_key f) key && enc_ok n E (f_ty f) fv x end)
-                 (c_fields d) (combine fs ms)
-            && Nat.eqb (List.length fs) (List.length ms) && Nat.eqb (List.length fs) (List.length (c_fields d))
+            obj_match (fun f fv x => enc_ok n E (nt_mode (c_ntd d) (f_ntover f)) (c_ntd d) (f_ty f) fv x)
+                      (fun f fv => c_omit d && nullable (f_ty f) && is_none_val fv) (c_fields d) fs ms
         | _, _, _ => false end
     | TTyped c =>
         match find_cls (typeds E) c, v, j with
@@ -187,11 +224,27 @@ Fixpoint enc_ok (fuel: nat) (E: env) (t: ty) (v: value) (j: json) {struct fuel} 
                (to_dict emits required keys first: member order is not constrained here) *)
             forallb (fun m => match m with (key, x) =>
                     match assoc fs key, find (fun f => String.eqb (f_name f) key) (c_fields d) with
-                    | Some fv, Some f => enc_ok n E (f_ty f) fv x
+                    | Some fv, Some f => enc_ok n E cur base (f_ty f) fv x
                     | _, _ => false end end) ms
             && Nat.eqb (List.length fs) (List.length ms) && no_dup_str (map fst ms)
             && forallb (fun f => f_has_default f || has_key ms (f_name f)) (c_fields d)
         | _, _, _ => false end
+    | TNamed c =>
+        match find_cls (nts E) c, v with
+        | Some d, VList l =>
+            if cur then
+              match j with
+              | JObj ms => all2 (fun f p => match p with (fv, (key, x)) =>
+                                   String.eqb (f_name f) key && enc_ok n E cur base (f_ty f) fv x end)
+                                (c_fields d) (combine l ms)
+                           && Nat.eqb (List.length l) (List.length ms) && Nat.eqb (List.length l) (List.length (c_fields d))
+              | _ => false end
+            else
+              match j with
+              | JArr js => all2 (fun f p => enc_ok n E cur base (f_ty f) (fst p) (snd p)) (c_fields d) (combine l js)
+                           && Nat.eqb (List.length l) (List.length js) && Nat.eqb (List.length l) (List.length (c_fields d))
+              | _ => false end
+        | _, _ => false end
     end
   end.
 
@@ -244,7 +297,7 @@ Section Gen.
     ++ match req with [] => [] | _ => [KRequired req] end
     ++ [KAddl false].
 
-  Fixpoint schema_f (fuel: nat) (t: ty) {struct fuel} : option schema :=
+  Fixpoint schema_f (cur: bool) (fuel: nat) (t: ty) {struct fuel} : option schema :=
     match fuel with
     | O => None
     | Sn n =>
@@ -260,25 +313,25 @@ Section Gen.
       | TTimezone => Some (S [KType TyString; KPattern UTC_PATTERN])
       | TEnum e => match find_enum (enums E) e with Some d => Some (S [KEnum (e_values d)]) | None => None end
       | TLit vs => Some (match vs with [v] => S [KConst v] | _ => S [KEnum vs] end)
-      | TList t' => match schema_f n t' with
+      | TList _ t' => match schema_f cur n t' with
                     | Some s => Some (S ([KType TyArray] ++ opt_kw KItems s)) | None => None end
-      | TSet t' => match schema_f n t' with
+      | TSet t' => match schema_f cur n t' with
                    | Some s => Some (S ([KType TyArray] ++ opt_kw KItems s ++ [KUnique true])) | None => None end
       | TTuple args =>
           match args with
           | [] => Some (S [KType TyArray; KMax 0%Z])
           | _ =>
-            match omap (fun (a: bool * ty) => match schema_f n (snd a) with
+            match omap (fun (a: bool * ty) => match schema_f cur n (snd a) with
                                  | Some s => Some (if fst a then @Unpack schema (uschema_of s) else @Plain schema s)
                                  | None => None end) args with
             | Some targs => Some (S (tuple_kws (on_tuple_k targs)))
             | None => None end
           end
       | TDict kt vt =>
-          match schema_f n kt, schema_f n vt with
+          match schema_f cur n kt, schema_f cur n vt with
           | Some ks, Some vs => Some (S ([KType TyObject] ++ opt_kw KAddlS vs ++ opt_kw KPropNames ks))
           | _, _ => None end
-      | TUnion ts => match omap (schema_f n) ts with Some l => Some (S [KAnyOf l]) | None => None end
+      | TUnion ts => match omap (schema_f cur n) ts with Some l => Some (S [KAnyOf l]) | None => None end
       | TData c =>
           match find_cls (classes E) c with
           | None => None
@@ -286,7 +339,7 @@ Section Gen.
               if all_refs then Some (S [KRef (d_prefix dl) (c_name d)])
               else
                 let fs := filter f_init (c_fields d) in
-                match omap (fun f => match schema_f n (f_ty f) with Some s => Some (f_key f, s) | None => None end) fs with
+                match omap (fun f => match schema_f (nt_mode (c_ntd d) (f_ntover f)) n (f_ty f) with Some s => Some (f_key f, s) | None => None end) fs with
                 | Some ps => Some (S (obj_kws (Some (c_name d)) ps
                                        (map f_key (filter (fun f => negb (f_has_default f)) fs))))
                 | None => None end
@@ -295,10 +348,25 @@ Section Gen.
           match find_cls (typeds E) c with
           | None => None
           | Some d =>
-              match omap (fun f => match schema_f n (f_ty f) with Some s => Some (f_name f, s) | None => None end) (c_fields d) with
+              match omap (fun f => match schema_f cur n (f_ty f) with Some s => Some (f_name f, s) | None => None end) (c_fields d) with
               | Some ps => Some (S (obj_kws None ps
                                      (sort_str (map f_name (filter (fun f => negb (f_has_default f)) (c_fields d))))))
               | None => None end
+          end
+      | TNamed c =>
+          match find_cls (nts E) c with
+          | None => None
+          | Some d =>
+              if cur then
+                match omap (fun f => match schema_f cur n (f_ty f) with Some s => Some (f_name f, s) | None => None end) (c_fields d) with
+                | Some ps => Some (S ([KType TyObject] ++ match ps with [] => [] | _ => [KProps ps] end
+                                      ++ [KRequired (map f_name (c_fields d)); KAddl false]))
+                | None => None end
+              else
+                match omap (fun f => schema_f cur n (f_ty f)) (c_fields d) with
+                | Some [] => Some (S [KType TyArray])
+                | Some ss => Some (S [KType TyArray; KPrefix ss; KMin (zlen ss); KMax (zlen ss)])
+                | None => None end
           end
       end
     end.
@@ -306,7 +374,7 @@ Section Gen.
   (* the object schema stored in the definitions for class d (all_refs mode) *)
   Definition class_schema (fuel: nat) (d: cls) : option schema :=
     let fs := filter f_init (c_fields d) in
-    match omap (fun f => match schema_f fuel (f_ty f) with Some s => Some (f_key f, s) | None => None end) fs with
+    match omap (fun f => match schema_f (nt_mode (c_ntd d) (f_ntover f)) fuel (f_ty f) with Some s => Some (f_key f, s) | None => None end) fs with
     | Some ps => Some (S (obj_kws (Some (c_name d)) ps (map f_key (filter (fun f => negb (f_has_default f)) fs))))
     | None => None end.
 
@@ -322,21 +390,41 @@ End Gen.
 
 (* ------------------------------------------------------------------ *)
 (* the domain of the soundness theorem: everything except the known findings *)
-Fixpoint ty_ok (fuel: nat) (E: env) (t: ty) {struct fuel} : bool :=
+(* types at which to_dict never sees None (so omit_none never drops the key) *)
+Fixpoint never_none (fuel: nat) (t: ty) {struct fuel} : bool :=
+  match fuel with
+  | O => false
+  | Sn n =>
+    match t with
+    | TNone | TAny => false
+    | TLit vs => negb (existsb (json_eqb JNull) vs)
+    | TUnion ts => forallb (never_none n) ts
+    | _ => true end
+  end.
+
+Fixpoint ty_ok (fuel: nat) (E: env) (cur base: bool) (t: ty) {struct fuel} : bool :=
   match fuel with
   | O => false
   | Sn n =>
     match t with
     | TEnum e => match find_enum (enums E) e with Some d => negb (e_flag d) | None => false end   (* KF schema-flag-combos *)
-    | TList t' | TSet t' => ty_ok n E t'
-    | TTuple args => no_unpack args && forallb (fun a => ty_ok n E (snd a)) args
-    | TDict kt vt => str_wired n E kt && ty_ok n E kt && ty_ok n E vt                             (* KF schema-nonstr-keys *)
-    | TUnion ts => forallb (ty_ok n E) ts
+    | TList keep t' => (keep || Bool.eqb cur base) && ty_ok n E cur base t'      (* KF schema-nt-override-in-containers *)
+    | TSet t' => Bool.eqb cur base && ty_ok n E cur base t'
+    | TTuple args => no_unpack args && forallb (fun a => ty_ok n E cur base (snd a)) args
+    | TDict kt vt => Bool.eqb cur base && str_wired n E kt && ty_ok n E cur base kt && ty_ok n E cur base vt   (* KF schema-nonstr-keys *)
+    | TUnion ts => forallb (ty_ok n E cur base) ts
     | TData c => match find_cls (classes E) c with
-                 | Some d => forallb (fun f => f_init f && ty_ok n E (f_ty f)) (c_fields d)       (* KF schema-init-false-field *)
+                 | Some d => forallb (fun f => f_init f                                         (* KF schema-init-false-field *)
+                                               && ty_ok n E (nt_mode (c_ntd d) (f_ntover f)) (c_ntd d) (f_ty f)
+                                               && (negb (c_omit d) || f_has_default f || never_none n (f_ty f)))  (* KF schema-omit-none-required *)
+                                     (c_fields d)
                  | None => false end
     | TTyped c => match find_cls (typeds E) c with
-                  | Some d => forallb (fun f => ty_ok n E (f_ty f)) (c_fields d)
+                  | Some d => forallb (fun f => ty_ok n E cur base (f_ty f)) (c_fields d)
+                              && no_dup_str (map f_name (c_fields d))
+                  | None => false end
+    | TNamed c => match find_cls (nts E) c with
+                  | Some d => forallb (fun f => ty_ok n E cur base (f_ty f)) (c_fields d)
                               && no_dup_str (map f_name (c_fields d))
                   | None => false end
     | _ => true
